@@ -269,6 +269,9 @@ static int upipe_dup_set_flow_def(struct upipe *upipe, struct uref *flow_def)
     struct uref *flow_def_dup = uref_dup(flow_def);
     UBASE_ALLOC_RETURN(flow_def_dup);
     upipe_dup_store_flow_def(upipe, flow_def_dup);
+    /* flow_def may be the definition that was just replaced (what
+     * get_flow_def returned): go on with the copy */
+    flow_def = flow_def_dup;
 
     struct uchain *uchain;
     ulist_foreach (&upipe_dup->outputs, uchain) {
